@@ -281,7 +281,9 @@ func (p *Policy) sanitize(r io.Reader, w io.Writer) error {
 			if !ok {
 				aa, matched := p.matchRegex(token.Data)
 				if !matched {
-					if _, ok := p.setOfElementsToSkipContent[token.Data]; ok {
+					// (a void element such as <frame> has no content and no
+					// end tag: it cannot open a region that is never closed)
+					if _, ok := p.setOfElementsToSkipContent[token.Data]; ok && !isVoidElement(token.Data) {
 						skipElementContent = true
 						skippingElementsCount++
 					}
@@ -377,7 +379,7 @@ func (p *Policy) sanitize(r io.Reader, w io.Writer) error {
 						break
 					}
 				}
-				if _, ok := p.setOfElementsToSkipContent[token.Data]; ok && !match {
+				if _, ok := p.setOfElementsToSkipContent[token.Data]; ok && !match && !isVoidElement(token.Data) {
 					skippingElementsCount--
 					if skippingElementsCount == 0 {
 						skipElementContent = false
@@ -1115,7 +1117,9 @@ func hasRelToken(rel string, token string) bool {
 func isVoidElement(elementName string) bool {
 	switch elementName {
 	case "area", "base", "br", "col", "embed", "hr", "img", "input", "link",
-		"meta", "param", "source", "track", "wbr":
+		"meta", "param", "source", "track", "wbr",
+		// no longer conforming, but still parsed as void elements
+		"basefont", "bgsound", "frame", "keygen":
 		return true
 	default:
 		return false
